@@ -1640,7 +1640,7 @@ func TestB2C08DCTFrames(t *testing.T) {
 				fmt.Fprintf(os.Stdout, "\nC08CHILD FAIL %s\n", strings.ReplaceAll(f, "\n", " "))
 			}
 		}
-		for i := 0; i < 40 && runtime.NumGoroutine() > goroutines; i++ {
+		for i := 0; i < 400 && runtime.NumGoroutine() > goroutines; i++ {
 			time.Sleep(50 * time.Millisecond)
 		}
 		if n := runtime.NumGoroutine(); n > goroutines {
